@@ -52,6 +52,8 @@ def prescribe(ctx, jobs, fuel=20000, timeout=1500, workers=None):
 def job(pid, prog, dev=(), mode="spec", what="main"):
     if "__files__" in prog:            # the file layout of a multi-file program is not part of its abstract syntax
         prog = {k: v for k, v in prog.items() if k != "__files__"}
+    if "externs" not in prog:
+        prog = dict(prog, externs=[])
     return {"id": pid, "prog": prog, "dev": list(dev), "mode": mode, "what": what}
 
 
